@@ -6,7 +6,7 @@ sys.path.insert(0, os.path.join(ROOT, 'lib')); sys.path.insert(0, os.path.join(R
 from vlib import *
 import gen_all
 for e in gen_all.generate_all(): log('translator:', e)
-targets = []; bins = set(); feats = {}
+targets = ['Lib/Hex.vo']; bins = set(); feats = {}
 for f in sorted(glob.glob(os.path.join(ROOT, 'manifest.d', 'C*.json'))):
     c = json.load(open(f))
     targets.append('Props/%s.vo' % c['property_id'])
